@@ -168,13 +168,24 @@ type ConcCase struct {
 	Threads [][]MOp `json:"threads"`
 	Keys    int     `json:"keys"`
 	Sched   []int   `json:"sched,omitempty"`
-	Procs   int     `json:"procs,omitempty"` // E4: GOMAXPROCS
-	Spin    []int   `json:"spin,omitempty"`  // E4: per-thread start perturbation (Gosched calls)
+	// Bulk: that many extra keys (1000, 1001, ...) are stored first - and promoted into the read map when BulkPromote -
+	// so that size-dependent paths of the implementation are reached; thread ops may address them (key >= 1000)
+	Bulk        int   `json:"bulk,omitempty"`
+	BulkPromote bool  `json:"bulk_promote,omitempty"`
+	Procs       int   `json:"procs,omitempty"` // E4: GOMAXPROCS
+	Spin        []int `json:"spin,omitempty"`  // E4: per-thread start perturbation (Gosched calls)
 }
 
 // runSetup executes the setup sequentially (checking it against the model) and returns the model.
-func runSetup(m *sync2.Map[int, int], setup []MOp) (map[int]int, string) {
+func runSetup(m *sync2.Map[int, int], setup []MOp, bulk int, promote bool) (map[int]int, string) {
 	model := map[int]int{}
+	for i := 0; i < bulk; i++ {
+		m.Store(1000+i, 5000+i)
+		model[1000+i] = 5000 + i
+	}
+	if bulk > 0 && promote {
+		m.Range(func(k, v int) bool { return true })
+	}
 	for i, op := range setup {
 		if op.K == "range" {
 			m.Range(func(k, v int) bool { return true }) // promotes
@@ -232,13 +243,37 @@ func keysOf(n int) []int {
 	return ks
 }
 
+// universe: keys 0..3 plus the bulk keys
+func universe(c ConcCase) []int {
+	ks := keysOf(max(c.Keys, 4))
+	for i := 0; i < c.Bulk; i++ {
+		ks = append(ks, 1000+i)
+	}
+	return ks
+}
+
+// probeKeys: the keys the quiescent postlude loads one by one
+func probeKeys(c ConcCase) []int {
+	ks := keysOf(c.Keys)
+	seen := map[int]bool{}
+	for _, prog := range c.Threads {
+		for _, op := range prog {
+			if op.Key >= 1000 && !seen[op.Key] {
+				seen[op.Key] = true
+				ks = append(ks, op.Key)
+			}
+		}
+	}
+	return ks
+}
+
 // lastResult is the scheduler result of the most recent RunSched call (the exhaustive schedule
 // enumerator needs the option counts of the run it just caused; units run single-threaded).
 var lastResult sched.Result
 
 func RunSched(c ConcCase) pbt.Outcome {
 	var m sync2.Map[int, int]
-	model, bad := runSetup(&m, c.Setup)
+	model, bad := runSetup(&m, c.Setup, c.Bulk, c.BulkPromote)
 	if bad != "" {
 		return pbt.Fail("%s", bad)
 	}
@@ -276,7 +311,7 @@ func RunSched(c ConcCase) pbt.Outcome {
 		return pbt.Outcome{Violation: fmt.Sprintf("deadlock: threads stuck at %v; history so far:\n%s", res.DeadlockAt, histString(hist)), Observed: obs}
 	}
 	// postlude on the quiescent map
-	for _, k := range keysOf(c.Keys) {
+	for _, k := range probeKeys(c) {
 		r := Rec{Th: -2, Op: MOp{K: "load", Key: k}, Inv: s.Clock()}
 		r.Out, r.OK, _, _ = Exec(&m, r.Op, 0)
 		r.Resp = s.Clock()
@@ -286,8 +321,15 @@ func RunSched(c ConcCase) pbt.Outcome {
 	_, _, r.Pairs, r.Calls = Exec(&m, r.Op, 0)
 	r.Resp = s.Clock()
 	hist = append(hist, r)
+	// ... and once more after that Range (which promotes the dirty map): nothing may vanish at a promotion
+	for _, k := range probeKeys(c) {
+		r := Rec{Th: -2, Op: MOp{K: "load", Key: k}, Inv: s.Clock()}
+		r.Out, r.OK, _, _ = Exec(&m, r.Op, 0)
+		r.Resp = s.Clock()
+		hist = append(hist, r)
+	}
 
-	if v := CheckHistory(model, keysOf(max(c.Keys, 4)), hist); v != "" {
+	if v := CheckHistory(model, universe(c), hist); v != "" {
 		obs["history"] = histString(hist)
 		return pbt.Outcome{Violation: v + "\nfull history:\n" + histString(hist) + "\ntrace: " + traceString(res.Trace), Observed: obs}
 	}
@@ -355,10 +397,23 @@ func genConc(t *rapid.T, withSched bool) ConcCase {
 	if r := rapid.IntRange(0, 2*len(setupRecipes)-1).Draw(t, "recipe"); r < len(setupRecipes) {
 		c.Setup = append(append([]MOp{}, setupRecipes[r]...), c.Setup...)
 	}
+	if rapid.IntRange(0, 7).Draw(t, "bulk?") == 0 {
+		c.Bulk = rapid.SampledFrom([]int{33, 34, 40, 70}).Draw(t, "bulk")
+		c.BulkPromote = rapid.IntRange(0, 3).Draw(t, "bulkpromote") != 0
+	}
 	nth := rapid.SampledFrom([]int{2, 2, 2, 3, 3, 4}).Draw(t, "threads")
 	withRange := rapid.IntRange(0, 3).Draw(t, "withrange") == 0
 	for i := 0; i < nth; i++ {
-		c.Threads = append(c.Threads, rapid.SliceOfN(genMOp(keys, withRange), 1, 3).Draw(t, fmt.Sprintf("t%d", i)))
+		prog := rapid.SliceOfN(genMOp(keys, withRange), 1, 3).Draw(t, fmt.Sprintf("t%d", i))
+		if c.Bulk > 0 {
+			// some operations address a bulk key (an existing key of the big map)
+			for j := range prog {
+				if prog[j].K != "range" && rapid.IntRange(0, 2).Draw(t, "onbulk") == 0 {
+					prog[j].Key = 1000 + rapid.IntRange(0, min(c.Bulk, 3)-1).Draw(t, "bulkkey")
+				}
+			}
+		}
+		c.Threads = append(c.Threads, prog)
 	}
 	if withSched {
 		p := rapid.SampledFrom([]int{4, 12, 30, 60}).Draw(t, "preempt%")
@@ -367,7 +422,7 @@ func genConc(t *rapid.T, withSched bool) ConcCase {
 				return rapid.IntRange(1, 3).Draw(t, "to")
 			}
 			return 0
-		}), 0, 90).Draw(t, "sched")
+		}), 0, map[bool]int{false: 90, true: 400}[c.Bulk > 0]).Draw(t, "sched")
 	} else {
 		c.Procs = rapid.SampledFrom([]int{2, 4, 8, 16}).Draw(t, "procs")
 		c.Spin = rapid.SliceOfN(rapid.IntRange(0, 3), nth, nth).Draw(t, "spin")
@@ -379,7 +434,7 @@ var specSched = pbt.Register(&pbt.Spec[ConcCase]{
 	Property: "C04", Name: "C04.sched",
 	Rule: "E3 controlled scheduler: case = sequential setup (0..12 ops over keys 0..3 incl. Range, chooses the internal layout) + 2..4 threads x 1..3 ops over 1..3 keys " +
 		"(optionally Range) + schedule (<=90 choices; 0 = keep running, k = switch to k-th other enabled thread) driving the real code hook by hook; " +
-		"oracle = per-key linearizability of the recorded history (Wing-Gong) incl. a quiescent postlude (Load of every key, full Range), three-clause Range rule, no deadlock, no panic; " +
+		"in one case of eight 33..70 extra keys are stored (and usually promoted) first and thread ops also address some of them (size-dependent paths); oracle = per-key linearizability of the recorded history (Wing-Gong) incl. a quiescent postlude (Load of every key, full Range, Load of every key again after that promotion), three-clause Range rule, no deadlock, no panic; " +
 		"non-trivial = two calls on one key (at least one mutator) from different threads overlap AND >=1 preemption at a library-internal hook",
 	Gen: func(t *rapid.T) ConcCase { return genConc(t, true) },
 	Run: RunSched, Quick: 12000, Thorough: 120000,
@@ -406,6 +461,15 @@ var setupRecipes = [][]MOp{
 var enumKinds = []string{"load", "store", "los", "lad", "del"}
 
 func enumPrograms(yield func(c ConcCase) bool) {
+	// a big promoted map (size-dependent paths): one thread adds a new key (rebuilds the dirty map from the
+	// >32-entry read map), the other deletes and re-stores / loads an existing key meanwhile
+	for _, a := range [][]MOp{{{K: "store", Key: 0}}, {{K: "los", Key: 0}}} {
+		for _, b := range [][]MOp{{{K: "del", Key: 1000}, {K: "store", Key: 1000}}, {{K: "lad", Key: 1001}, {K: "los", Key: 1001}}, {{K: "store", Key: 1000}, {K: "load", Key: 1000}}} {
+			if !yield(ConcCase{Bulk: 33, BulkPromote: true, Threads: [][]MOp{a, b}, Keys: 1}) {
+				return
+			}
+		}
+	}
 	for _, setup := range setupRecipes {
 		// thread A: 1..2 ops on key 0; thread B: 1 op on key 0; plus a Range variant for B
 		var progsA [][]MOp
@@ -477,7 +541,7 @@ func RunStress(c ConcCase) pbt.Outcome {
 	overlapped := false
 	for rep := 0; rep < stressReps; rep++ {
 		var m sync2.Map[int, int]
-		model, bad := runSetup(&m, c.Setup)
+		model, bad := runSetup(&m, c.Setup, c.Bulk, c.BulkPromote)
 		if bad != "" {
 			return pbt.Fail("%s", bad)
 		}
@@ -524,7 +588,7 @@ func RunStress(c ConcCase) pbt.Outcome {
 		for _, rs := range recs {
 			hist = append(hist, rs...)
 		}
-		for _, k := range keysOf(c.Keys) {
+		for _, k := range probeKeys(c) {
 			r := Rec{Th: -2, Op: MOp{K: "load", Key: k}, Inv: int(clock.Add(1))}
 			r.Out, r.OK, _, _ = Exec(&m, r.Op, 0)
 			r.Resp = int(clock.Add(1))
@@ -534,7 +598,7 @@ func RunStress(c ConcCase) pbt.Outcome {
 		_, _, r.Pairs, r.Calls = Exec(&m, r.Op, 0)
 		r.Resp = int(clock.Add(1))
 		hist = append(hist, r)
-		if v := CheckHistory(model, keysOf(max(c.Keys, 4)), hist); v != "" {
+		if v := CheckHistory(model, universe(c), hist); v != "" {
 			return pbt.Outcome{Violation: fmt.Sprintf("free-running repetition %d: %s\nfull history:\n%s", rep, v, histString(hist))}
 		}
 		if overlapDifferentThreads(hist) {
